@@ -75,6 +75,42 @@ theorem tx_all_or_nothing (db : Db) (r : Req)
   · rw [h, execute_eq]; exact run_tx_all_or_nothing _ db r hdb htx hn
   · rw [h, request_eq]; exact run_tx_all_or_nothing _ db r hdb htx hn
 
+/-- THE FULL STATEMENT, without the exclusion `NoCtl` (false: see the witness): every request marked
+as a transaction, whatever its statements, applies all of its writes or none. -/
+def tx_all_or_nothing_full : Prop :=
+  ∀ (db : Db) (r : Req), db.open_ = none → r.tx = true →
+    ∀ o, o = execute db r ∨ o = request db r →
+      o.db.open_ = none ∧ (o.db.committed = db.committed ∨ o.db.committed = db.committed ++ writes r.stmts)
+
+/-- the proved part: `tx_all_or_nothing` under the explicit exclusion "no BEGIN / COMMIT / ROLLBACK
+statement inside the request" -/
+theorem tx_all_or_nothing_partial (db : Db) (r : Req)
+    (hdb : db.open_ = none) (htx : r.tx = true) (hn : NoCtl r.stmts) :
+    ∀ o, o = execute db r ∨ o = request db r →
+      o.db.open_ = none ∧ (o.db.committed = db.committed ∨ o.db.committed = db.committed ++ writes r.stmts) := by
+  intro o ho
+  obtain ⟨_, h2, h3⟩ := tx_all_or_nothing db r hdb htx hn o ho
+  refine ⟨h2, ?_⟩
+  rw [h3]
+  split
+  · exact Or.inl rfl
+  · exact Or.inr rfl
+
+/-- the excluded inputs break it: an explicit COMMIT inside the request ends the wrapper's
+transaction early; the statements after it auto-commit; the failure then rolls nothing back.
+`Transaction:true [INSERT 1; COMMIT; INSERT 2; <constraint failure>]` leaves rows 1 and 2. -/
+theorem tx_all_or_nothing_witness :
+    (execute {} ⟨true, false, [.ok 1, .commit, .ok 2, .execFail]⟩).db.committed = [1, 2] ∧
+    (request {} ⟨true, false, [.ok 1, .commit, .ok 2, .execFail]⟩).db.committed = [1, 2] ∧
+    writes [.ok 1, .commit, .ok 2, .execFail] = [1, 2] ∧
+    (execute {} ⟨true, false, [.ok 1, .commit, .execFail, .ok 2]⟩).db.committed = [1] := by decide
+
+theorem tx_all_or_nothing_full_is_false : ¬ tx_all_or_nothing_full := by
+  intro h
+  have := (h {} ⟨true, false, [.ok 1, .commit, .execFail, .ok 2]⟩ rfl rfl _ (Or.inl rfl)).2
+  revert this
+  decide
+
 example : (request {} ⟨true, false, [.ok 1, .prepFail, .ok 2]⟩).db = {} ∧
     (execute {} ⟨true, false, [.ok 1, .returning 2 true, .query false]⟩).db.committed = [1, 2] := by decide
 
@@ -123,6 +159,42 @@ theorem rollback_on_error_leaves_nothing (db : Db) (r : Req) (pre body post : Li
 
 example : (request ⟨[7], none⟩ ⟨false, true, [.ok 1, .begin, .ok 2, .execFail, .ok 3, .commit]⟩).db = ⟨[7, 1], none⟩ := by
   decide
+
+theorem run_rollback_autocommit (succ : Db → Stmt → Res) (db : Db) (r : Req)
+    (pre post : List Stmt) (f : Stmt)
+    (hdb : db.open_ = none) (htx : r.tx = false) (hrb : r.rb = true)
+    (hs : r.stmts = pre ++ f :: post) (hnpre : NoCtl pre) (hokpre : pre.any fails = false)
+    (hf : fails f = true) :
+    run succ db r = ⟨failEffect ⟨db.committed ++ writes pre, none⟩ f,
+      specAll succ db pre ++ [.err], false⟩ := by
+  obtain ⟨c, o⟩ := db
+  simp only at hdb
+  subst hdb
+  unfold run
+  simp only [htx, hrb, Bool.false_eq_true, if_false, Bool.or_true, hs]
+  rw [genLoop_closed_ok succ true false c pre _ hnpre hokpre]
+  obtain ⟨hrun, hne⟩ := fails_sqlRun ⟨c ++ writes pre, none⟩ f hf
+  rw [genLoop_fail_stop succ false _ f _ hrun hne]
+  have : rollbackIgnore (failEffect ⟨c ++ writes pre, none⟩ f) = failEffect ⟨c ++ writes pre, none⟩ f := by
+    cases f <;> simp [failEffect, rollbackIgnore, sqlRun, Db.write]
+  simp [this]
+
+/-- Rollback-on-error WITHOUT an explicit transaction (every statement auto-commits): execution
+stops at the first failure, what the earlier statements committed stays, and a statement that is
+not atomic on its own leaves what it had done before failing (`failEffect`: the ROLLBACK the code
+issues finds no transaction). There is no "failed transaction" to undo in this shape; stated so
+that the behaviour is visible. Both paths. -/
+theorem rollback_on_error_without_transaction (db : Db) (r : Req) (pre post : List Stmt) (f : Stmt)
+    (hdb : db.open_ = none) (htx : r.tx = false) (hrb : r.rb = true)
+    (hs : r.stmts = pre ++ f :: post) (hnpre : NoCtl pre) (hokpre : pre.any fails = false)
+    (hf : fails f = true) :
+    (execute db r).db = failEffect ⟨db.committed ++ writes pre, none⟩ f ∧
+    (request db r).db = failEffect ⟨db.committed ++ writes pre, none⟩ f := by
+  rw [execute_eq, request_eq, run_rollback_autocommit _ db r pre post f hdb htx hrb hs hnpre hokpre hf,
+    run_rollback_autocommit _ db r pre post f hdb htx hrb hs hnpre hokpre hf]
+  exact ⟨rfl, rfl⟩
+
+example : (execute ⟨[7], none⟩ ⟨false, true, [.ok 1, .partialFail 2, .ok 3]⟩).db = ⟨[7, 1, 2], none⟩ := by decide
 
 /-! ### results -/
 
